@@ -8,11 +8,11 @@ ID = "C20"
 RULE = ("E-FULL: int2name(i) for every i in the index range compared in order with the "
         "shortlex enumeration of non-empty A-Z strings (itertools.product); every 3-digit "
         "code over 0-9a-fA-F and every 6-digit code over the tier's digit set, with and "
-        "without '#', through hex2rgb/hex2rgbstr/hex2html against int(.,16); for all 4096 three-digit codes a back-to-back call sequence of codes sharing a numeric value or prefix; TikZ documents with 750 and 18300 (thorough 3000 and 19000) labels whose macro names must be the shortlex names, pairwise distinct. Non-trivial: "
+        "without '#', through hex2rgb/hex2rgbstr/hex2html against int(.,16); for all 4096 three-digit codes a back-to-back call sequence of codes sharing a numeric value or prefix, and the same six spellings per code as per-label colours (a list and a function) of 16 TikZ documents whose \\definecolor lines are read back; TikZ documents with 750 and 18300 (thorough 3000 and 19000) labels whose macro names must be the shortlex names, pairwise distinct. Non-trivial: "
         "multi-letter names (a carry happened) / codes containing a letter digit.")
 ASSUMPTIONS = ["int(s, 16) and itertools.product are the trusted reference",
                "codes outside 3/6 hex digits are outside the property"]
-REQUIRED_COUNTERS = ("names_multi_letter", "codes_3digit", "codes_6digit", "adjacent_calls", "document_labels")
+REQUIRED_COUNTERS = ("names_multi_letter", "codes_3digit", "codes_6digit", "adjacent_calls", "document_labels", "colour_document_labels")
 HEX22 = "0123456789abcdefABCDEF"
 N_NAMES = 1000001
 
@@ -45,6 +45,8 @@ def plan(tier, seed):
         shards.append(["hex6", "".join(_digits6(seed, 1)), d])
     for d in range(16):
         shards.append(["adjacent", d])
+    for d in range(16):  # documents whose labels carry colour codes that share a numeric value or a prefix
+        shards.append(["colourdoc", d])
     shards.append(["document", 750 if tier == "quick" else 3000])
     shards.append(["document", 18300 if tier == "quick" else 19000])  # beyond the first four-letter name (index 18278)
     if tier == "thorough":
@@ -111,6 +113,41 @@ def check_document(n):
     return None
 
 
+def check_colour_document(d0):
+    """One TikZ document whose per-label colours are codes that share a numeric value or a prefix (xyz, 000xyz, xyz000,
+    xxyyzz, upper case, with and without '#'), as a list for one colour kind and through a function for another: every
+    \\definecolor line must carry the colour of its own label."""
+    import re
+    from labella.scale import LinearScale
+    from labella.timeline import TimelineTex
+    codes = []
+    for t in itertools.product("0123456789abcdef", repeat=2):
+        xyz = d0 + "".join(t)
+        codes += ["#" + xyz, "#000" + xyz, xyz.upper(), "#" + xyz + "000", "".join(c + c for c in xyz), "000" + xyz.upper()]
+    n = len(codes)
+    data = [{"time": float(i * 30), "width": 10, "text": "t", "c": codes[(i * 7) % n]} for i in range(n)]
+    L = float(n * 30)
+    try:
+        doc = TimelineTex(data, {"scale": LinearScale(), "domain": [0, L], "initialWidth": L + 40, "direction": "up", "showTicks": False,
+                                 "dotColor": list(codes), "linkColor": lambda d: d["c"]}).export()
+    except Exception as e:
+        return "EXC:colour-document:" + type(e).__name__, "TimelineTex with %d colour codes raised %r" % (n, e)
+
+    def html(code):
+        body = code.lstrip("#")
+        full = body if len(body) == 6 else "".join(c + c for c in body)
+        return full.upper()
+    for prefix, want in (("dotColor", [html(c) for c in codes]), ("linkColor", [html(d["c"]) for d in data])):
+        got = re.findall(r"^\\definecolor\{%s[A-Z]+\}\{HTML\}\{([0-9A-Fa-f]*)\}" % prefix, doc, re.M)
+        if len(got) != n:
+            return "C20:colour-document", "%d %s definitions for %d labels" % (len(got), prefix, n)
+        for i, (g, w) in enumerate(zip(got, want)):
+            if g.upper() != w:
+                return ("C20:colour-document", "label %d: %s is defined as %s in the TikZ document, its colour code %r means %s"
+                        % (i, prefix, g, codes[i] if prefix == "dotColor" else data[i]["c"], w))
+    return None
+
+
 def run_shard(shard):
     import labella.utils as U
     acc = Acc()
@@ -158,6 +195,17 @@ def run_shard(shard):
                     acc.violation({"fn": "hex-seq", "arg": seq, "at": code}, bad[0] + ":after-other-code", bad[1], order=(5, xyz))
             acc.nontriv += 1
         acc.sample({"fn": "hex-seq", "arg": seq, "at": seq[1]})
+        return acc
+    if kind == "colourdoc":
+        bad = check_colour_document("0123456789abcdef"[shard[1]])
+        acc.evals += 1
+        acc.states += 256 * 6
+        acc.trans += 256 * 6
+        acc.counters["colour_document_labels"] += 256 * 6
+        acc.nontriv += 256 * 6
+        if bad:
+            acc.violation({"fn": "colourdoc", "arg": shard[1]}, bad[0], bad[1], order=(7, shard[1]))
+        acc.sample({"fn": "colourdoc", "arg": shard[1]})
         return acc
     if kind == "document":
         n = shard[1]
@@ -225,6 +273,8 @@ def replay(case):
         return None
     if case["fn"] == "document":
         return check_document(case["arg"])
+    if case["fn"] == "colourdoc":
+        return check_colour_document("0123456789abcdef"[case["arg"]])
     return check_code(U, case["arg"])
 
 
